@@ -37,12 +37,12 @@ Import ListNotations. Local Open Scope N_scope. Local Open Scope string_scope.
 
 // classes of outcome (the only distinction between errors the properties make)
 const (
-	ClsOK = 0
-	ClsInputMissing = 1
-	ClsTxidMissing = 2
+	ClsOK            = 0
+	ClsInputMissing  = 1
+	ClsTxidMissing   = 2
 	ClsScriptMissing = 3
-	ClsOtherErr = 8
-	ClsPanic = 9
+	ClsOtherErr      = 8
+	ClsPanic         = 9
 )
 
 func classify(err error, panicked bool) int {
@@ -104,6 +104,7 @@ type Runner struct {
 	C      *common.Ctx
 	Legacy bool
 	api    string
+	kept   []keptPre
 }
 
 func dsha(b []byte) []byte {
@@ -123,6 +124,23 @@ func (a snapshot) equal(b snapshot) bool {
 }
 
 // one observes one (index, hash type) on the shared tx object and states the property in Go.
+type keptPre struct {
+	b   []byte
+	sha string
+	in  map[string]interface{}
+}
+
+// checkKept: every preimage returned so far still has the bytes it had when it was returned
+func (r *Runner) checkKept() {
+	for _, k := range r.kept {
+		if common.Sha256Hex(k.b) != k.sha {
+			r.C.Violate(r.api+"/returned-preimage-changes-after-later-calls", "a preimage returned earlier no longer hashes to what it did (the slice is reused by later computations)", k.in)
+			break
+		}
+	}
+	r.kept = nil
+}
+
 func (r *Runner) one(s txgen.TxSpec, tx *bt.Tx, idx uint32, ht uint8) call {
 	c := r.C
 	k := call{Idx: idx, HT: ht}
@@ -144,6 +162,10 @@ func (r *Runner) one(s txgen.TxSpec, tx *bt.Tx, idx uint32, ht uint8) call {
 	}
 	if k.PreCls == ClsOK {
 		k.PreLen, k.PreSha = len(pre), common.Sha256Hex(pre)
+		// the slice handed out stays what it was when later computations run on the same transaction
+		if len(r.kept) < 4096 {
+			r.kept = append(r.kept, keptPre{pre, k.PreSha, in})
+		}
 	}
 	if !before.equal(snap(tx)) {
 		c.Violate(r.api+"/mutates-tx", "transaction differs after the call", in)
@@ -212,6 +234,7 @@ func (r *Runner) family() []uint8 {
 // txCases: one case per in-range index (all 128 types), one for the out-of-range / negative-safe
 // indices (a few types each).  only >= 0 restricts the in-range indices to that one.
 func (r *Runner) txCases(s txgen.TxSpec, only int, kind string) {
+	defer r.checkKept()
 	c := r.C
 	tx := Build(s)
 	fam := r.family()
